@@ -3,6 +3,7 @@ INVARIANT ChainIsPath
 INVARIANT UtxoViewCorrect
 INVARIANT HistCorrect
 INVARIANT TxNumMap
+INVARIANT HeaderProofs
 INVARIANT RawRowsClean
 INVARIANT CaughtUpFresh
 INVARIANT FinalAtTip
